@@ -220,6 +220,42 @@ theorem inv_addJob {s : State} {i : Nat} {f : FileSt}
         exact inv_newJob (jn := ⟨⟨minOff p, [], false⟩, p, 0, 0⟩) hup hf hj rfl hso.le hso.boundary hpa hs hw h
   · exact fresh
 
+/-! ### forget (maintenance releases an idle job) -/
+
+theorem inv_forget {s : State} {i : Nat} (hup : s.up = true) (hex : ¬ Ex i)
+    (hq : ∀ e ∈ s.inflight, e.ino ≠ i) (h : Inv cfg G Ex s) :
+    Inv cfg G Ex { s with jobs := upd s.jobs i none } := by
+  refine ⟨h.glob, ?_, ?_, h.sorted, ?_, h.skipped, ?_, h.fresh, ?_⟩
+  · intro k j hk
+    by_cases hki : k = i
+    · subst hki; simp at hk
+    · simp only [upd_other _ _ hki] at hk
+      obtain ⟨g, hg, hji⟩ := h.jobs k j hk
+      exact ⟨g, hg, hji.same rfl rfl⟩
+  · intro e he
+    simp only [upd_other _ _ (hq e he)]; exact h.infl_job e he
+  · intro hdown; simp [hup] at hdown
+  · intro e he hg
+    obtain ⟨j, hj, hle⟩ := h.bad e he hg
+    exact ⟨j, by simp only [upd_other _ _ (hq e he)]; exact hj, hle⟩
+  · intro k hk
+    have hki : k ≠ i := fun e => hex (e ▸ hk)
+    simp only [upd_other _ _ hki]; exact h.exJob k hk
+
+/-- the rule of `maintenanceJob`: when a job is released, every admitted line of its file has been
+    read; with nothing of the source in flight, every one is acked -/
+theorem forget_all_acked {s : State} {i : Nat} {f : FileSt} {j : JobSt} (h : Inv cfg G Ex s)
+    (hf : s.files i = some f) (hj : s.jobs i = some j) (hcur : j.w.curOffset = f.content.length)
+    (hq : ∀ e ∈ s.inflight, e.ino ≠ i) :
+    ∀ l ∈ specLines f.content 0 [], cfg.accept l.2 = true → CoversG G s.acked i l := by
+  intro l hl hacc
+  obtain ⟨f', hf', hji⟩ := h.jobs i j hj
+  rw [hf] at hf'; cases hf'
+  rw [hcur, List.take_length] at hji
+  rcases hji.handled l hl hacc with hc | ⟨e, he, _, hi, _⟩
+  · exact hc
+  · exact absurd hi (hq e he)
+
 /-! ### commit -/
 
 theorem headOf_spec {i : Nat} {st : Stream} {l : List Ev} {e : Ev} (hs : Sorted G l) (hg : G e)
